@@ -180,7 +180,8 @@ class Ctx:
               "coverage": cov, "assumptions": self.assumptions, "wall_s": round(time.time() - self.t0, 3),
               "violations": len(unlisted)}
         EVIDENCE_DIR.mkdir(exist_ok=True)
-        (EVIDENCE_DIR / f"{self.prop}.json").write_text(json.dumps(ev, indent=1, default=str))
+        name = f"{self.prop}.json" if not getattr(self, "partial", False) else f"replay/{self.prop}.partial.json"
+        (EVIDENCE_DIR / name).write_text(json.dumps(ev, indent=1, default=str))
         if unlisted:
             return 1
         if self.errors:
